@@ -605,6 +605,20 @@ def run_gen(ctx: Ctx, c, lines, metas, verbose=False):
             stc["grad"] = "plain"
         ctx.count(f"run.grad={stc.get('grad', 'plain')}")
         clock0 = float(model.systime)
+        # ---- the documented argument check: a covariance that is neither passed nor stored -> NotImplementedError; the
+        # model's glue says `none` (driver: err no-covariance); nothing may change
+        if c.get("fail_at") == j and stv != "both":
+            miss = "Q" if stv in ("none", "R") else "R"
+            kwm = {kx: v for kx, v in kw.items() if kx != miss}
+            _, merr = guarded_call(filt, mon, f"{c['filter']}.forward", [x, y, u, P], kwm, dict(stc, positional=False), is_ukf)
+            ctx.count(f"run.missing-covariance.{'raised' if merr else 'returned'}")
+            if merr is None or not merr.startswith("NotImplementedError"):
+                ctx.fail(stepcase, f"missing-covariance: {c['filter']} call without {miss} on an object that does not store it "
+                                   f"{'returned a value' if merr is None else 'raised ' + merr[:60]} (documented: NotImplementedError)")
+            lines.append(call_line(c, prm, kspec, kval, t_eff, ul, yl, ctorQl, ctorRl,
+                                   Ql if (st["pass_q"] and miss != "Q") else None, Rl if (st["pass_r"] and miss != "R") else None,
+                                   xl, Pl))
+            metas.append({"case": stepcase, "expect_model_err": "no-covariance"})
         # ---- a failing call in the middle of the history (kind 11): it must leave the objects as they were
         if c.get("fail_at") == j:
             fk = c.get("fail_kind", "callback-g")          # a valid use: the user's system function raises once
@@ -661,7 +675,8 @@ def run_gen(ctx: Ctx, c, lines, metas, verbose=False):
                 ctx.fail(stepcase, f"raises: {c['filter']} raised at call {j} of the run (arguments: {mode}): {err}")
             else:
                 # non-linear UKF with negative centre weight: P^- may be indefinite; the model must fail too
-                lines.append(ukf_line(c, prm, kval, t_eff, ul, yl, Ql, Rl, xl, Pl))
+                lines.append(call_line(c, prm, kspec, kval, t_eff, ul, yl, ctorQl, ctorRl, Ql if st["pass_q"] else None,
+                                       Rl if st["pass_r"] else None, xl, Pl))
                 metas.append({"case": stepcase, "expect_err": err})
             break
         bad = bad_output(out, n, dt)
@@ -733,10 +748,8 @@ def run_gen(ctx: Ctx, c, lines, metas, verbose=False):
                 ctx.fail(stepcase, f"psd: {c['filter']} call {j}: covariance asymmetry {asym:.3e}, min eigenvalue {lam:.3e} "
                                    f"(tol {tolPs:.3e})")
         # ---- model line (a)
-        if is_ukf:
-            lines.append(ukf_line(c, prm, kval, t_eff, ul, yl, Ql, Rl, xl, Pl))
-        else:
-            lines.append(f"c13.ekf {n} {m} {p} " + uf.step_tokens(prm, t_eff, ul, yl, Ql, Rl, xl, Pl))
+        lines.append(call_line(c, prm, kspec, kval, t_eff, ul, yl, ctorQl, ctorRl, Ql if st["pass_q"] else None,
+                               Rl if st["pass_r"] else None, xl, Pl))
         # a prior / predicted covariance that is singular at rounding level: the exact model may find no Cholesky
         # factor where the float code (or a user-supplied symmetric root) still returns one — not a verdict
         soft_pd = is_ukf and ((j > 0 and in_lam <= 4 * n * prev_tolP) or uinfo is None
@@ -755,6 +768,22 @@ def run_gen(ctx: Ctx, c, lines, metas, verbose=False):
         ctx.fail(dict(c), f"mutation: {mu['function']} changed its argument {mu['argument']}")
 
 
+def call_line(c, prm, kspec, kval, t_eff, u, y, stQ, stR, pQ, pR, x, P):
+    """one call on a filter OBJECT for the model: what the object stores, what the call passes, whether k is given —
+    the resolution of Q, R and k (None -> 3 - n) is done by the model's glue (ekfCall / ukfCall / resolveK)"""
+    is_ukf = c["filter"] == "ukf"
+    hk = 1 if (is_ukf and kspec != "none") else 0
+    head = (f"c13.call {c['filter']} {c['n']} {c['m']} {c['p']} {int(stQ is not None)} {int(stR is not None)} "
+            f"{int(pQ is not None)} {int(pR is not None)} {hk} {to_wire(float(kval) if hk else 0.0)}")
+    parts = [head, to_wire(t_eff), uf.fam_tokens(prm)]
+    for v in (u, y, stQ, stR, pQ, pR, x, P):
+        if v is not None:
+            fv = uf.flat(v)
+            if fv:
+                parts.append(common.wire_list(fv))
+    return " ".join(parts)
+
+
 def ukf_line(c, prm, kval, t_eff, u, y, Q, R, x, P):
     return f"c13.ukf {c['n']} {c['m']} {c['p']} {to_wire(float(kval))} " + uf.step_tokens(prm, t_eff, u, y, Q, R, x, P)
 
@@ -765,6 +794,10 @@ def compare_runs(ctx: Ctx, lines, metas, verbose=False, reps=None):
         st, toks = common.parse_reply(rep)
         case = me["case"]
         n = case["n"]
+        if "expect_model_err" in me:
+            if st == "ok" or not toks.startswith(me["expect_model_err"]):
+                ctx.disagree("run", case, f"model should report {me['expect_model_err']} for a call without a covariance, got {rep[:60]}")
+            continue
         if "expect_err" in me:
             if st == "ok":
                 ctx.disagree("run", case, f"implementation raised ({me['expect_err']}) but the model returns a value")
@@ -1362,8 +1395,64 @@ def run(ctx: Ctx):
     for i in range(ctx.pick(12, 40)):
         run_pf_stat(ctx, gen_pf(rng, True, ctx.quick, forced[i] if i < len(forced) else None))
     f32_large(ctx)
+    witness_stream(ctx)
     t4 = time.time()
     ctx.notes.append(f"wall: runs {t1 - t0:.1f}s, pf-corr {t2 - t1:.1f}s, model driver {t3 - t2:.1f}s, pf-stat {t4 - t3:.1f}s")
+
+
+_QUAD = None
+
+
+def quad_class():
+    """the witness system of theorem ukf_negative_centre_not_psd: f(x,u) = x, g(x,u) = x^2 + x"""
+    global _QUAD
+    if _QUAD is None:
+        NLS = uf.pp().module.NLS
+
+        class QuadNLS(NLS):
+            def state_transition(self, state, input, t=None):
+                return state
+
+            def observation(self, state, input, t=None):
+                return state * state + state
+
+        _QUAD = QuadNLS
+    return _QUAD
+
+
+def witness_stream(ctx: Ctx):
+    """Replay of the Lean witness on the implementation: k = -1/2 (centre weight -1), P = 1/2, Q = 3/2, R = 1, x = y = u = 0.
+    Theorem ukf_negative_centre_witness_value: every admissible pinv / msqrt gives x = -4, P = -2 (not PSD) — the guard
+    `whenever its centre weight is non-negative` of the property is sharp. The real code must return exactly that (all data
+    and intermediate values are dyadic), and the model run in BigF agrees."""
+    rep = ctx.driver.run(["c13.witness"])[0]
+    stt, toks = common.parse_reply(rep)
+    if stt != "ok":
+        raise common.InfraError(f"driver: {rep}")
+    mv = [float(common.from_wire(t)) for t in toks]
+    for dname in ("float64", "float32"):
+        dt = dt_of(dname)
+        case = {"kind": "witness", "dtype": dname}
+        ukf = uf.pp().module.UKF(quad_class()())
+        T = lambda v: torch.tensor(v, dtype=dt)
+        try:
+            out = ukf(T([0.0]), T([0.0]), T([0.0]), T([[0.5]]), T([[1.5]]), T([[1.0]]), k=-0.5)
+        except Exception as e:  # noqa: BLE001
+            ctx.fail(case, f"ukf-documented: the necessity witness raises {type(e).__name__}: {str(e)[:80]}")
+            continue
+        bad = bad_output(out, 1, dt)
+        if bad is not None:
+            ctx.fail(case, f"output: UKF on the necessity witness {bad}")
+            continue
+        xv, Pv = float(out[0][0]), float(out[1][0, 0])
+        tol = CTOL * common.EPS[dname] * 16.0
+        ctx.note_case(("witness", dname), True)
+        ctx.count("witness.ukf-negative-centre")
+        if abs(xv - (-4.0)) > tol or abs(Pv - (-2.0)) > tol:
+            ctx.fail(case, f"ukf-documented: necessity witness (k=-1/2): implementation returns x={xv!r}, P={Pv!r}; the documented "
+                           f"recursion gives x=-4, P=-2")
+        if abs(mv[0] - xv) > tol or abs(mv[1] - Pv) > tol:
+            ctx.disagree("witness", case, f"model gives x={mv[0]!r}, P={mv[1]!r}, implementation x={xv!r}, P={Pv!r}")
 
 
 def f32_large(ctx: Ctx):
@@ -1416,6 +1505,8 @@ def replay(ctx: Ctx, case) -> bool:
         compare_pf(ctx, lines, metas, verbose=True)
     elif kind == "pf-stat":
         run_pf_stat(ctx, c, verbose=True)
+    elif kind == "witness":
+        witness_stream(ctx)
     for f in ctx.failures[n0:]:
         print("  fails:", f["what"])
     for dd in ctx.disagreements:
